@@ -184,8 +184,17 @@ class Composite(LexicalParent[Node], HasCreator, Node, ABC):
                 # Signals heard in an earlier run that ended before the round was
                 # complete (a sibling failed) must not count towards this run's rounds
                 node.signals.input.accumulate_and_run.reset()
-            for node in self.starting_nodes:
-                node.run()
+            try:
+                for node in self.starting_nodes:
+                    node.run()
+            except (Exception, KeyboardInterrupt):
+                # Children that were already handed to executors come home before the
+                # failure is reported, so that nothing is left running; what they would
+                # have triggered is dropped with the failed run
+                while len(self.running_children) > 0:
+                    sleep(self._child_sleep_interval)
+                self.signal_queue = []
+                raise
 
         self._run_while_children_or_signals_exist()
 
